@@ -198,7 +198,8 @@ def execute(sc, ctx):
     sess = simpipe.Session(kpath, sdk, rn, version=version, parser=sc["parser"], policy=sc.get("policy"))
     state = {"menu_ids": [], "loads": set(), "nontrivial": False, "last_save": None, "final_load": False}
     lines = list(sc["reqs"])
-    if sc.get("restart"):
+    if sc.get("restart") and not (lines and isinstance(lines[-1], dict) and "save" in lines[-1]):
+        # (when the session already ends on a request that saves, that save is the one the restart is compared with)
         lines = lines + [{"save": None}]
 
     def next_line(s, i):
@@ -223,8 +224,8 @@ def execute(sc, ctx):
             state["nontrivial"] = True
         if "error" in obj:
             ctx.counters["probe:reply-with-error"] += 1
-        if "save" in d and "error" not in obj:
-            state["last_save"] = i
+        if "save" in d and not any("save" in str(e).lower() for e in obj.get("error", [])):
+            state["last_save"] = i  # the save itself was not refused (errors about other parts of the request do not undo it)
         if list(d) == ["load"] and "error" not in obj and i == len(sc["reqs"]) - 1:
             # keep what was loaded (a later `save: null` overwrites the file in use)
             src = _last_save_path(lines[: i + 1], sb, sdk)
